@@ -1433,6 +1433,28 @@ package ion
 //@ interface Reader.BoolValue
 //@ pure
 //@ ensures err == nil && !recv.IsNull() ==> result != nil
+//@ interface Reader.IntValue
+//@ pure
+//@ ensures err == nil && !recv.IsNull() ==> result != nil
+//@ interface Reader.TimestampValue
+//@ pure
+//@ ensures err == nil && !recv.IsNull() ==> result != nil
+//@ interface Reader.DecimalValue
+//@ pure
+//@ ensures err == nil && !recv.IsNull() ==> result != nil
+//@ interface Reader.ByteValue
+//@ pure
+//@ interface Reader.FieldName
+//@ pure
+//@ interface Reader.Annotations
+//@ pure
+// An integer that is not null has one of the three sizes.
+//@ interface Reader.IntSize
+//@ pure
+//@ ensures err == nil && !recv.IsNull() ==> result == Int32 || result == Int64 || result == BigInt
+// After a successful Next the reader stands on a value of one of the thirteen Ion types.
+//@ interface Reader.Next
+//@ ensures result ==> NullType <= recv.Type() && recv.Type() <= StructType
 
 //@ func (*Decoder).decodeIntTo
 //@ split returns
